@@ -60,6 +60,10 @@ class FaultyOpen:
         self.counter = counter
 
     def __call__(self, file, mode="r", *a, **kw):
+        if self.budget < 0 and "w" in mode and "b" in mode:
+            # the open itself fails (EMFILE / EACCES ...): nothing is truncated, an older file stays intact
+            self.counter["fired"] = True
+            raise OSError(errno.EMFILE, "Too many open files (injected)")
         f = self.real(file, mode, *a, **kw)
         if "w" not in mode or "b" not in mode:
             return f
@@ -141,8 +145,10 @@ class Runner:
                 ops.append({"op": "load", "path": sp, "ctor": rng.choice(["wider", "deeper", "other_env", "bigger_feature"])})
             elif u < 0.84:
                 ops.append({"op": "tear", "path": sp, "frac": rng.random()})
-            elif u < 0.94:
+            elif u < 0.90:
                 ops.append({"op": "save_enospc", "pol": rng.randrange(3), "path": sp, "frac": rng.random()})
+            elif u < 0.94:
+                ops.append({"op": "save_eopen", "pol": rng.randrange(3), "path": sp})
             else:
                 ops.append({"op": "preexist", "path": sp, "what": rng.choice(["garbage", "other_arch", "empty"])})
         # make sure something is saved early so that loads have a target
@@ -273,9 +279,10 @@ class Runner:
                             continue
                         res.ok("C18", "mkdir_parents")
                         content[disk] = op["pol"]
-                    elif kind == "save_enospc":
+                    elif kind in ("save_enospc", "save_eopen"):
                         full_size = self._size_of(pols[op["pol"]], root)
-                        budget = int(op["frac"] * full_size)
+                        budget = int(op["frac"] * full_size) if kind == "save_enospc" else -1
+                        os.makedirs(os.path.dirname(disk), exist_ok=True) if kind == "save_eopen" else None
                         counter = {"fired": False}
                         real_open = builtins.open
                         builtins.open = FaultyOpen(budget, counter)
@@ -287,13 +294,23 @@ class Runner:
                         finally:
                             builtins.open = real_open
                         if counter["fired"]:
-                            F["F.fs_enospc"] += 1
-                            content[disk] = None  # short file: only "raises" is acceptable on load
-                            if not raised:
-                                res.probes["enospc_save_did_not_raise"] += 1
+                            F["F.fs_enospc" if kind == "save_enospc" else "F.fs_open_error"] += 1
+                            if raised:
+                                if kind == "save_enospc":
+                                    content[disk] = None  # short file: only "raises" is acceptable on load
+                                # save_eopen: the save failed loudly before touching the file; what was there stays
+                                res.ok("C18", "failed_save_is_loud")
+                            else:
+                                # the write failed underneath and serialize() still returned normally: the caller believes the
+                                # policy is saved, so loading the path must restore exactly that policy
+                                res.probes["faulted_save_did_not_raise"] += 1
+                                content[disk] = op["pol"]
+                                tr.ev(kind, path=op["path"], budget=budget, fired=True, raised=False)
+                                self._do_load(res, tr, {"op": "load", "path": op["path"], "ctor": "same"}, arg, disk, content, pols, arch, obs, plan)
+                                continue
                         else:
                             content[disk] = op["pol"]
-                        tr.ev("save_enospc", path=op["path"], budget=budget, fired=counter["fired"], raised=raised)
+                        tr.ev(kind, path=op["path"], budget=budget, fired=counter["fired"], raised=raised)
                     elif kind == "tear":
                         if os.path.exists(disk) and os.path.getsize(disk) > 0:
                             size = os.path.getsize(disk)
